@@ -9,6 +9,7 @@ import (
 	"regexp"
 	"strconv"
 	"strings"
+	"time"
 
 	ch "github.com/ClickHouse/ch-go"
 
@@ -162,7 +163,7 @@ func body12(s scn, otel bool, foreign string, f fault) Body {
 // C12 — no data race inside the library: the schedules enumerated by the explorer are run
 // under the Go race detector (the scheduler's barrier adds no happens-before edges).
 func C12(c *vk.Ctx) {
-	c.Rule("query scenarios of C04 (insert with progress, streamed insert, LZ4 insert, select, select with logs/profile events), each with OpenTelemetry instrumentation on and off, fault-free and with a server exception at two gates, plus Close / IsClosed / cancel from a foreign goroutine; every schedule up to the deviation bound is executed in a -race build; a report counts when both conflicting accesses are in ch-go packages. distinct_nontrivial = executions.")
+	c.Rule("query scenarios of C04 (insert with progress, streamed insert, LZ4 insert, select, select with logs/profile events), each with OpenTelemetry instrumentation on and off, fault-free and with a server exception at two gates, plus Close / IsClosed / cancel from a foreign goroutine, plus pool scenarios of C11 (two holders incl. a broken connection and a double release, the health checker destroying expired connections); every schedule up to the deviation bound is executed in a -race build; a report counts when both conflicting accesses are in ch-go packages. distinct_nontrivial = executions.")
 	rl := newRaceLog()
 	if rl == nil && c.Flavour == "sched-race" {
 		harness("C12 needs GORACE=log_path=...")
@@ -202,6 +203,18 @@ func C12(c *vk.Ctx) {
 			}
 			jobs = append(jobs, job{fmt.Sprintf("%s/otel=true/foreign-%s", s.name, foreign), body12(s, true, foreign, fault{kind: "none"}), "C12/" + s.name})
 		}
+	}
+	// pool users with the health checker (the C11 harness under the race detector)
+	poolScns := []poolScn{
+		{maxConns: 1, progs: []int{hOK, hTransport}},
+		{maxConns: 1, progs: []int{hOK, hDoubleRelease}},
+		{maxConns: 2, progs: []int{hOK, hOK}, period: time.Second, idleTime: time.Hour, lifetime: 3 * time.Second, idleWait: 5 * time.Second},
+	}
+	if !quick {
+		poolScns = append(poolScns, poolScn{maxConns: 2, progs: []int{hOK, hTransport}}, poolScn{maxConns: 1, progs: []int{hTransport, hPoolDo}, closer: true})
+	}
+	for _, ps := range poolScns {
+		jobs = append(jobs, job{"pool/" + ps.id(), bodyPool(ps), "C12/pool"})
 	}
 	minBound := 99
 	for _, j := range jobs {
